@@ -93,6 +93,7 @@ func checkC04(c *Ctx, r *Report) {
 	defer nanRule(c, r)
 	defer everyFieldHandledRule(c, r)
 	defer validatorSiblingsRule(c, r)
+	defer validatorKindsRule(c, r)
 	r.Assumption("custom validators registered with RegisterValidator and Validate() methods are user code; the rule decides that they are called, not what they accept")
 	r.Assumption("kind waiver: no built-in validator inspects struct values or Config-convertible values; a pointer is looked through by every built-in validator (R04i)")
 	runV := c.Func("", "runValidators")
@@ -1240,7 +1241,7 @@ func keptEntriesRule(c *Ctx, r *Report) {
 		if avoid[ret.Block()] {
 			reach = false
 		}
-		r.Check(!reach, "R04k", name, fmt.Sprintf("successful return#%d behind a validation of the kept entries", n), c.Pos(ret.Pos()),
+		r.Check(!reach, "R04k", name, "successful return behind a validation of the kept entries", c.Pos(ret.Pos()),
 			fmt.Sprintf("reachable only through tryRecursiveValidate(to) [%d site(s)] or the header of a complete pass over to.MapKeys() [%d]", len(whole), len(headers)),
 			"reifyMap can return successfully without having validated the entries the configuration does not name: neither the whole map went through tryRecursiveValidate nor is there a complete pass over to.MapKeys() in front of this return (a pre-filled entry that breaks its validators is returned; the list routine reifyDoArray validates the elements it keeps)")
 	}
@@ -1275,4 +1276,42 @@ func keyTextOf(idx, key ssa.Value) bool {
 		}
 	}
 	return len(Sources(idx)) > 0
+}
+
+// validatorKindsRule (R04l): the tag validators that compare numbers (nonzero, min, max) dispatch on the kind of the
+// value and let every kind they do not list pass. A numeric kind missing from the list — uintptr was — is a field on
+// which the tag is silently not enforced (repaired in 8c56d44). Each of the thirteen numeric kinds must therefore
+// reach a case of its own, i.e. not the block the dispatch sends a non-numeric kind (Chan) to.
+func validatorKindsRule(c *Ctx, r *Report) {
+	r.Rule("R04l", "the kind dispatch of validateNonZero, validateMin and validateMax sends each of the thirteen numeric reflect kinds to a case that compares the number, none to the branch of the kinds it does not know", 3)
+	kt, kinds := reflectKind(c)
+	numeric := map[string]bool{"Int": true, "Int8": true, "Int16": true, "Int32": true, "Int64": true, "Uint": true, "Uint8": true, "Uint16": true, "Uint32": true, "Uint64": true, "Uintptr": true, "Float32": true, "Float64": true}
+	var other int64 = -1
+	for _, kc := range kinds {
+		if kc.Name == "Chan" {
+			other = kc.Val
+		}
+	}
+	for _, name := range []string{"validateNonZero", "validateMin", "validateMax"} {
+		fn := c.TryFunc("", name)
+		if fn == nil {
+			r.add("R04l", "ucfg."+name, "numeric kinds", "-", Undecided, true, "validator not found")
+			continue
+		}
+		ds := findDispatches(fn, kt)
+		if len(ds) != 1 || other < 0 {
+			r.add("R04l", c.FnName(fn), "numeric kinds", c.Pos(fn.Pos()), Undecided, true, fmt.Sprintf("expected one dispatch on a reflect.Kind, found %d", len(ds)))
+			continue
+		}
+		d := ds[0]
+		dflt := d.Target(other, kt)
+		var missing []string
+		for _, kc := range kinds {
+			if numeric[kc.Name] && d.Target(kc.Val, kt) == dflt {
+				missing = append(missing, kc.Name)
+			}
+		}
+		r.Check(len(missing) == 0, "R04l", c.FnName(fn), "numeric kinds", c.Pos(fn.Pos()), "all thirteen numeric kinds have a comparing case",
+			"the validator has no case for kind "+strings.Join(missing, ", ")+": a field of that kind takes the branch of the kinds the validator does not know, and the tag is not enforced on it")
+	}
 }
